@@ -165,6 +165,10 @@ func (a Any) semanticTokensForTemplateExpr(ctx context.Context) ([]lang.Semantic
 		}
 
 		for _, partExpr := range eType.Parts {
+			if partExpr.Range().Empty() {
+				// e.g. empty string between two template directives
+				continue
+			}
 			cons := schema.AnyExpression{
 				OfType: cty.String,
 			}
